@@ -13,6 +13,7 @@ from __future__ import annotations
 
 import ast
 
+from .boundary_rules import native_float_specials
 from ..core import Ctx, Rule
 from ..facts import ShapeError, call_name, calls_in, dotted, kwarg, norm, walk_no_nested
 from ..tables import Inst, Opaque, Sym, decide, module_dict
@@ -25,6 +26,43 @@ ORDERING = 'fpy2/utils/ordering.py'
 COMPARE = 'fpy2/utils/compare.py'
 
 ORD = lambda m: Sym('Ordering', m)   # noqa: E731
+
+
+# ----------------------------------------------------------------------
+# X1 the exact types compute with integers only
+
+EXACT_MODULES = ('fpy2/number/number/reals.py', 'fpy2/number/number/floats.py', 'fpy2/utils/bits.py', 'fpy2/utils/fractions.py')
+# what of `math` classifies or builds a special float without rounding anything
+MATH_EXACT = {'isnan', 'isinf', 'isfinite', 'copysign', 'nan', 'inf'}
+
+
+def x1_integer_arithmetic_only(ctx: Ctx):
+    """"Exactly, whatever the significand width": the arbitrary-precision types and the helpers they decide by (is this
+    integer a power of two, is this rational dyadic) may not route a value through a binary64 -- `math.log2(k)`,
+    `math.sqrt`, `float(k)`, `a / b` on integers all round once the operand passes 53 bits, and nothing fails: the answer
+    is just wrong for wide operands.  In the modules of the exact types every use of `math` is one of the classifying
+    ones, no number is converted with `float(...)`, and no true division appears outside a Fraction."""
+    n = 0
+    for rel in EXACT_MODULES:
+        tree = ctx.repo.module(rel).tree
+        funcs = dict(ctx.repo.functions(rel))
+        for q, fn in funcs.items():
+            for node in ast.walk(fn):
+                if isinstance(node, ast.Attribute) and isinstance(node.value, ast.Name) and node.value.id == 'math':
+                    n += 1
+                    ctx.check(node.attr in MATH_EXACT, rel, node, q, f'`math.{node.attr}` classifies or names a special float (no rounding)',
+                              f'`math.{node.attr}` computes in binary64: for operands wider than 53 bits the answer is rounded -- is_power_of_two(2**60 + 1) becomes True, '
+                              'so 1 / (2**60 + 1) is taken for a dyadic rational and converted inexactly without an error')
+                if isinstance(node, ast.Call) and isinstance(node.func, ast.Name) and node.func.id == 'float' and node.args \
+                        and not (isinstance(node.args[0], ast.Constant) and isinstance(node.args[0].value, str)):
+                    n += 1
+                    ctx.check(q.endswith(('__float__', 'bits_to_float')), rel, node, q, f'`{norm(node)[:40]}` is the conversion to a native float itself',
+                              'a value is routed through a binary64 inside exact arithmetic')
+                if isinstance(node, ast.BinOp) and isinstance(node.op, ast.Div):
+                    n += 1
+                    ctx.bad(rel, node, q, f'`{norm(node)[:50]}`', 'true division yields a binary64 for integer operands; exact code divides with Fraction or //')
+    if n < 12:
+        raise ShapeError(f'only {n} uses of float-valued facilities found in the exact modules (13 math uses confirmed by hand)')
 
 
 # ----------------------------------------------------------------------
@@ -533,6 +571,8 @@ RULES = [
     Rule('C05.T1', 'Float.__add__/__mul__/__pow__ special-value arms equal the IEEE 754 tables; coercions exact', t1_float_specials, 45, 'T'),
     Rule('C05.T2', 'comparison tables: dunders, Float.compare, RealFloat.compare, Ordering, CompareOp', t2_compare, 70, 'T'),
     Rule('C05.P1', 'conversions to native types are exact or raise', p1_exact_conversions, 16, 'P'),
+    Rule('C05.X1', 'the exact types and their integer helpers never route a value through a binary64 (no math.log2 / sqrt / float() / true division)', x1_integer_arithmetic_only, 12, 'X'),
+    Rule('C05.T4', 'a native float special enters with its sign (NaN included)', native_float_specials, 4, 'T'),
     Rule('C05.F1', 'hash goes through the denoted value; == gates on the five numeric types', f1_hash, 6, 'F'),
     Rule('C05.T3', 'RealFloat + / * with an infinite or NaN float follow IEEE; unknown operand types are left to the reflected method', t3_realfloat_foreign_operands, 11, 'T'),
 ]
@@ -540,6 +580,9 @@ RULES = [
 from ..selftest import Mutant  # noqa: E402
 
 MUTANTS = [
+    Mutant('power-of-two-by-log2', 'fpy2/utils/bits.py', "    return (k & (k - 1)) == 0", "    import math\n    return k != 0 and math.log2(k).is_integer()", 'C05.X1',
+           'seeded change C05e: RealFloat(1) + Fraction(1, 2**60 + 1) is computed as if the fraction were dyadic'),
+    Mutant('dyadic-test-by-float-division', 'fpy2/utils/bits.py', "    return (k & (k - 1)) == 0", "    return k > 0 and (2 ** k.bit_length() / k) in (1.0, 2.0)", 'C05.X1'),
     Mutant('round-ignores-ndigits', REALS, "        if ndigits is not None:\n            raise NotImplementedError('rounding to decimal digits cannot be implemented exactly')\n", "", 'C05.P1',
            'finding F56 before its repair: round(RealFloat(2.5), 1) is the int 2'),
     Mutant('float-round-swallows-arguments', FLOATS, "        return self._real.__round__(*args, **kwargs)", "        return self._real.__round__()", 'C05.P1'),
